@@ -25,7 +25,8 @@ type Gate struct {
 	isOpen  bool
 	changed chan struct{} // closed and replaced at every state change
 
-	inflight int // calls inside the proxy (parked or running the delegate)
+	waiting  []chan struct{} // one channel per parked call, for selective release
+	inflight int             // calls inside the proxy (parked or running the delegate)
 	parked   int // calls waiting on the gate
 	entries  int64
 	exits    int64
@@ -63,6 +64,20 @@ func (g *Gate) Open() {
 	g.mu.Unlock()
 }
 
+// ReleaseN lets up to n of the currently parked calls go (the gate itself
+// stays shut) and returns how many were released.
+func (g *Gate) ReleaseN(n int) int {
+	g.mu.Lock()
+	defer g.mu.Unlock()
+	k := 0
+	for k < n && len(g.waiting) > 0 {
+		close(g.waiting[0])
+		g.waiting = g.waiting[1:]
+		k++
+	}
+	return k
+}
+
 // Shut makes later calls park.
 func (g *Gate) Shut() {
 	g.mu.Lock()
@@ -88,15 +103,33 @@ func (g *Gate) Through(label string, park bool) (exit func()) {
 		g.afterMark = append(g.afterMark, label)
 	}
 	ch := g.ch
+	var own chan struct{}
 	if park {
 		g.parked++
+		if !g.isOpen {
+			own = make(chan struct{})
+			g.waiting = append(g.waiting, own)
+		}
 	}
 	g.bump()
 	g.mu.Unlock()
 	if park {
-		<-ch
+		if own != nil {
+			select {
+			case <-ch:
+			case <-own:
+			}
+		} else {
+			<-ch
+		}
 		g.mu.Lock()
 		g.parked--
+		for i, w := range g.waiting {
+			if w == own {
+				g.waiting = append(g.waiting[:i], g.waiting[i+1:]...)
+				break
+			}
+		}
 		g.bump()
 		g.mu.Unlock()
 	}
